@@ -64,7 +64,7 @@ SPELL = ["plain", "dot", "dotdot", "redundant", "updown", "abs"]
 FORMS = ["let", "expr", "called_func"]
 PROBES = ["pos_" + p for p in ALL_POS] + ["fail_msg_site", "decoy_value_distinguishable", "three_spelling_same_file", "diamond",
                                          "back_edge_let", "back_edge_expr", "back_edge_called_func", "back_edge_at_position", "back_edge_in_module", "back_edge_in_callback", "cycle_len_1", "cycle_len_2", "cycle_len_3",
-                                         "back_edge_respelled", "include_site", "lib_level_site", "fault_with_decoy"]
+                                         "back_edge_respelled", "include_site", "lib_level_site", "fault_with_decoy", "identical_twin_files", "back_edge_via_hof"]
 DECOY_CWD = "decoy/d1/d2/d3"
 DIRSETS = [["", "lib"], ["", "lib", "lib/deep"], ["app", "lib"], ["app", "lib", "shared/x"], ["", "a", "a/b", "a/b/c"], ["app/svc", "lib", ""]]
 
@@ -143,6 +143,22 @@ def generate(rng, tier, idx):
     for j in range(1, n):
         if j not in reach:
             files[0]["sites"].append({"pos": "top_let", "kind": "import", "target": j, "spelling": "plain"})
+    real_dirs = [d for d in dirs]
+    if len(real_dirs) >= 2 and rng.chance(15):
+        # byte-identical twin files in two directories, each importing the sibling `tbase.ucg` of its own directory
+        # (anything that identifies a file by its text instead of its path mixes them up)
+        dA, dB = rng.sample(real_dirs, 2)
+        tw_uid = "TW" + rng.token(5)
+        pos, sp = pick_pos(), rng.choice(["plain", "dot"])
+        base_idx = len(files)
+        for d in (dA, dB):
+            files.append({"path": (d + "/tbase.ucg").lstrip("/"), "uid": "TB" + rng.token(5), "sites": []})
+        for k, d in enumerate((dA, dB)):
+            files.append({"path": (d + "/twin.ucg").lstrip("/"), "uid": tw_uid, "sites": [{"pos": pos, "kind": "import", "target": base_idx + k, "spelling": sp}]})
+        for k in (0, 1):
+            files[0]["sites"].append({"pos": rng.choice(["top_let", "paren", "tuple_field"]), "kind": "import", "target": base_idx + 2 + k, "spelling": "plain"})
+        world["twins"] = True
+        n = len(files)
     mode = rng.weighted([("dag", 6), ("cycle", 3), ("fault", 2), ("fail_msg", 1)])
     if mode == "cycle":
         frm = rng.below(n)
@@ -151,7 +167,7 @@ def generate(rng, tier, idx):
         to = rng.choice(anc)
         # the back edge is a bare let-import (the only form the static checker follows), one of the two hand-picked forms, or an import at
         # any of the syntactic positions (module bodies, callbacks, select arms, ...)
-        form = rng.weighted([("let", 3), ("expr", 1), ("called_func", 1), ("pos:" + rng.choice(sorted(POS)), 7)])
+        form = rng.weighted([("let", 3), ("expr", 1), ("called_func", 1), ("via_hof", 2), ("via_std_hof", 1), ("pos:" + rng.choice(sorted(POS)), 7)])
         world["back_edge"] = {"from": frm, "to": to, "form": form, "spelling": pick_spell()}
     elif mode == "fault":
         j = rng.between(1, n - 1)
@@ -304,6 +320,13 @@ def render_file(world, i, proj_abs, ids, target_value):
             L.append('let back = (import "%s").id;' % p)
         elif be["form"] == "called_func":
             L.append('let backf = func (x) => (import "%s").id;\nlet back = backf(1);' % p)
+        elif be["form"] == "via_hof":
+            # the callback holding the back edge is invoked by a function that lives in a helper file without imports of its own
+            hp = os.path.relpath("hof_helper.ucg", os.path.dirname(f["path"]) or ".")
+            # (the helper's function is bound to a name first: the static checker rejects `m.f(1)` on an imported user file - C07's business)
+            L.append('let hof = import "%s";\nlet hof_apply = hof.apply;\nlet back = hof_apply(func (x) => (import "%s").id, 1);' % (hp if hp.startswith(".") else "./" + hp, p))
+        elif be["form"] == "via_std_hof":
+            L.append('let fnl = import "std/functional.ucg";\nlet mb = fnl.maybe{val = 1};\nlet mb_do = mb.do;\nlet back = mb_do(func (x) => (import "%s").id);' % p)
         else:
             pos = be["form"].split(":", 1)[1]
             e = '(import "%s").id' % p
@@ -352,6 +375,9 @@ def execute(world, sb, res):
         sb.write("proj/" + f["path"], render_file(world, i, proj_abs, ids, target_value))
     for d in world["data"]:
         sb.write("proj/" + d["path"], d["uid"])
+    if world["back_edge"] and world["back_edge"]["form"] == "via_hof":
+        sb.write("proj/hof_helper.ucg", "let apply = func (f, x) => f(x);\nlet twice = func (f, x) => f(f(x));\n")
+        res.probe("back_edge_via_hof")
     entry_dir = os.path.dirname(files[0]["path"])
     fail_entry = None
     if world["fail_site"]:
@@ -439,6 +465,9 @@ def execute(world, sb, res):
             else:
                 incoming.setdefault(s["target"], []).append((i, s["spelling"]))
     multi = {j: v for j, v in incoming.items() if len(v) >= 2}
+    if world.get("twins"):
+        res.probe("identical_twin_files")
+        res.key(["twins"], True)
     if any(len(set(sp for _, sp in v)) >= 3 for v in multi.values()):
         res.probe("three_spelling_same_file")
     if any(len(set(i for i, _ in v)) >= 2 for v in multi.values()):
@@ -446,7 +475,7 @@ def execute(world, sb, res):
     be = world["back_edge"]
     cyc_len = None
     if be:
-        res.probe("back_edge_" + (be["form"] if ":" not in be["form"] else "at_position"))
+        res.probe("back_edge_" + ({"via_hof": "called_func", "via_std_hof": "called_func"}.get(be["form"], be["form"]) if ":" not in be["form"] else "at_position"))
         if be["form"] in ("pos:module_body", "pos:module_cb", "pos:module_out_expr", "pos:module_out_binding", "pos:module_param"):
             res.probe("back_edge_in_module")
         if be["form"] in ("pos:map_cb", "pos:filter_cb", "pos:reduce_cb", "pos:named_cb", "pos:deep_cb"):
@@ -576,8 +605,19 @@ def execute(world, sb, res):
         if dec and not res.violations:
             pos = "+".join(sorted(set().union(*[decoy_pos.get(u, set()) for u in dec]))) or "unknown"
             res.violate("C09.wrong-file", "resolved-against-cwd", "candidate positions: %s\n" % pos + "decoy file(s) %s were evaluated (an import was resolved against the working directory)\n%s" % (dec, ctx))
+        reach_now = reachable(world)
+        same_uid = {}
+        for i, f in enumerate(files):
+            if i in reach_now:
+                same_uid[f["uid"]] = same_uid.get(f["uid"], 0) + 1
         for i, f in enumerate(files):
             c = counts.get(f["uid"], 0)
+            if same_uid.get(f["uid"], 1) > 1:
+                if c != same_uid[f["uid"]]:
+                    res.violate("C09.evaluated-twice" if c > same_uid[f["uid"]] else "C09.not-evaluated", "twins",
+                                "%d byte-identical files carry the marker %s; it was evaluated %d times\n%s" % (same_uid[f["uid"]], f["uid"], c, ctx))
+                    break
+                continue
             if c > 1:
                 how = "multi-spelling" if len(set(sp for _, sp in incoming.get(i, []))) > 1 else "single-spelling"
                 res.violate("C09.evaluated-twice", how, "%s was evaluated %d times in one build (imported by %s)\n%s" % (f["path"], c, incoming.get(i), ctx))
